@@ -44,7 +44,8 @@ TRUSTED = [
     "harness/c14 (workload) and lib/c14.py (orchestration)",
 ]
 ASSUMPTIONS = [
-    "each concurrent parse has its own parsley.Context, text.Reader, text.File and parsley.FileSet (the property's premise)",
+    "each concurrent parse has its own parsley.Context, text.Reader and text.File (the property's premise); a "
+    "parsley.FileSet may be shared by the runs (the files registered in it are parsed by one run each)",
     "the parser graph is completely built (happens-before) when the parses start; builder methods such as Sequence.Bind are "
     "not called on a graph that is in use",
     "user code plugged into the graph (interpreters, custom parsers, result handlers) is itself free of shared mutable state",
@@ -66,7 +67,7 @@ MANIFEST = {
              "-race workload (shared graphs, success and failure inputs, concurrent construction) runs on every check and "
              "compares each concurrent result with the solo result."),
     "note": ("Trusted: Coq kernel + vm_compute; extractor tools/effects; classification table in coq/Race.v; Go memory "
-             "model, runtime and race detector; premise that each parse owns its Context/Reader/File/FileSet and that the "
+             "model, runtime and race detector; premise that each parse owns its Context/Reader/File (a FileSet may be shared) and that the "
              "graph is built before it is shared; C15 for the shared empty IntMap/IntSet values."),
     "ref": "DESIGN.md section 6, C14",
 }
